@@ -93,6 +93,7 @@ def gen_sources(rng, n, eos_rate=0.15, dirs=True, big_rate=0.0):
 def setup_sources(cd, sources):
     fs = []
     contents = []
+    seen_paths = {}
     for s in sources:
         if "eos" in s:
             contents.append(None)
@@ -100,6 +101,9 @@ def setup_sources(cd, sources):
         data = materialize(s["content"])
         contents.append(data)
         rp = real_path_of_disk(s["arg"])
+        if seen_paths.get(rp, data) != data:
+            raise RuntimeError("generator defect: two sources of one case share the host path %r with different contents" % rp)
+        seen_paths[rp] = data
         cd.put(rp, data)
         fs.append([text_points(rp), data])
     return fs, contents
